@@ -275,7 +275,10 @@ func Mutate(t *rapid.T, root *Node, typeNames []string) []string {
 					if kind == "swap-type" && len(typeNames) > 0 {
 						v = rapid.SampledFrom(typeNames).Draw(t, "swapto")
 					} else {
-						v = rapid.SampledFrom([]string{"nope", "", " ", "a\x00"}).Draw(t, "unktype")
+						// ... or the name as it is written, in another letter
+						// case or with a blank behind it: not that type either.
+						cur := c.parent.Members[c.index].Str
+						v = rapid.SampledFrom([]string{"nope", "", " ", "a\x00", strings.ToUpper(cur), strings.ToLower(cur), strings.Title(cur), cur + " ", cur + "s"}).Draw(t, "unktype")
 					}
 
 					c.parent.Members[c.index] = &Node{Kind: "string", Str: v}
